@@ -162,7 +162,7 @@ def run(index, tier="quick", seed=0) -> Result:
                                                                    and t_.attr == a_.attr for t_ in st_.targets) \
                                     and isinstance(st_.value, ast.Constant) and isinstance(st_.value.value, (int, float)):
                                 extra_attr[f"self.{a_.attr}"] = SV("scal", [Poly.const(st_.value.value)])
-        ret, ev = evaluate(fnp, {"q": qv, "density": SV("scal", [Poly.atom("RHO")])}, extra_attr=extra_attr)
+        ret, ev = evaluate(fnp, {"q": qv, "density": SV("scal", [Poly.atom("RHO")])}, extra_attr=extra_attr, index=index)
         stores = {k: [par(c) for c in v.comps] for k, v in ev.masked_stores.items()}
         zero = [v for k, v in stores.items() if "~" not in k]
         gen = [v for k, v in stores.items() if "~" in k]
